@@ -394,9 +394,22 @@ def const_value(node):
 
 
 def kwarg(call, name, pos=None):
+    """Argument `name` of a call, given by keyword or - when the callee's parameter list is known (repository
+    callables by name, third-party ones through inspect) - by position."""
     for k in call.keywords:
         if k.arg == name:
             return k.value
+    if pos is None:
+        d = dotted(call.func)
+        if d:
+            ps = None
+            last = d.split('.')[-1]
+            if last in sym.REPO_SIGS:
+                ps = sym.REPO_SIGS[last]
+            elif d.split('.')[0] in sym.EXT_ROOTS:
+                ps = sym._ext_params(d)
+            if ps and name in ps:
+                pos = ps.index(name)
     if pos is not None and len(call.args) > pos and not any(isinstance(a, ast.Starred) for a in call.args[:pos + 1]):
         return call.args[pos]
     return None
@@ -600,11 +613,14 @@ def inventory(fn, rule, items, metas, root=None, fixed=None, required=True, orde
                     cands_.append((nf_[0], t_))
             except Exception:
                 pass
-            if isinstance(s_, ast.If) and not s_.orelse:
-                # `if c: continue` + rest  and  `if not c: rest`  are one construct: an `if` item also matches
-                # the opposite test (the run conditions of the dependent statements are decided by CONTEXT)
+            if isinstance(s_, ast.If):
+                # `if c: continue` + rest  and  `if not c: rest`, `if c: A else: B` and `if not c: B else: A` are one
+                # construct: an `if` item also matches the opposite test (the run conditions of the dependent
+                # statements are decided by CONTEXT)
                 for c_ in [nf_] + list(cands_):
-                    cands_.append(('if', sym.negate(c_[1])))
+                    for ng in (sym.negate(c_[1]), sym.negate_deep(c_[1])):
+                        if ('if', ng) not in cands_:
+                            cands_.append(('if', ng))
             if isinstance(s_, ast.If) and not s_.orelse:
                 # `if a and b:` and `if a: if b:` are one construct: a conjunct may be matched on its own (each by
                 # a different item), and an outer test may be read together with the only `if` it contains
@@ -742,7 +758,11 @@ def inventory(fn, rule, items, metas, root=None, fixed=None, required=True, orde
         # that may or may not share their loop variable) count as one role
         gb = {}
         for m_, v_ in best['binding'].items():
-            gb.setdefault(mnames.get(m_, m_) if not m_.startswith('__') else m_, v_)
+            g_ = mnames.get(m_, m_) if not m_.startswith('__') else m_
+            k_ = g_
+            while k_ in gb and gb[k_] != v_:
+                k_ += "'"
+            gb[k_] = v_
         context_obligations(fn, rule, best['matched'], gb, root, best.get('conj') or {})
         out = dict(best['binding'])
         out['__matched__'] = dict(best['matched'])
@@ -832,7 +852,7 @@ def run_context(fn, st, binding=None, resolved=True, extra_tests=()):
     inv = {}
     for m, v in (binding or {}).items():
         if isinstance(v, tuple) and len(v) == 2 and v[0] == 'var' and isinstance(v[1], str) and not m.startswith('__'):
-            inv.setdefault(v[1], m)
+            inv.setdefault(v[1], m.rstrip("'"))
     locs = getattr(fn, '_local_names', None)
     if locs is None:
         locs = {n.id for n in fn.walk(None, into_nested=True) if isinstance(n, ast.Name) and isinstance(n.ctx, ast.Store)}
